@@ -71,7 +71,7 @@ def cases(tier, seed):
                     out.append({"t": "A", "spec": spec, "cfg": {"iteration_limit": HORIZON[tier]}, "sc": sc})
     # (A3) bounds that are not binary fractions, active at the solution
     for obj in ("qdiag", "qfull", "cubic", "lin"):
-        for vk in (["odd", "odd"], ["odd", "free"], ["boxed", "odd"]):
+        for vk in (["odd", "odd"], ["odd", "free"], ["boxed", "odd"], ["narrowbox", "free"], ["boxed", "narrowbox"], ["intbox", "intbox"]):
             for rows in ([], [("affine", "ranged")], [("sphere", "upper")]):
                 for x0i in (0, 1, 2, 3):
                     spec = S.mk(2, obj, rows, vk, x0_idx=x0i)
